@@ -58,6 +58,16 @@ CLAIMS = {
         note="Trusted: as C01; converted values compared by repr() against reference conversions. Bounded as C01 "
              "(12 datatype-stress schemas + family).",
         technique="TLA+ spec of the loader (machine tree vs declarative ValueTree) model-checked by TLC; trees compared on the code"),
+    "C05": dict(
+        text="TLC runs the loader specification (ZLoadFn: StepDefine, Expand, StepInclude) on every sequence of define / use / "
+             "include steps up to the bound, checking in every step that a stored definition never changes (DefinesWriteOnce) "
+             "and that frames are exactly the open resources; per scenario the specification's outcome (accepted with the "
+             "expanded values of every use, or a syntax error) is compared with four executions on the real code: twice "
+             "against one schema object and twice through one reused ConfigLoader (no carry-over between loads).",
+        design="3 (C05)",
+        note="Trusted: TLC, the scenario driver (harness/zcv/scenario.py, props/c05.py). Bounded: sequences <= 3 over 18 steps and "
+             "<= 4 over 10 steps (quick), <= 4 / <= 6 (thorough); %include targets resolved by the harness.",
+        technique="TLA+ loader spec run by TLC on exhaustively enumerated define/use/include histories; outcomes replayed on the code"),
 }
 
 NOT_YET = "check not built yet (construction order in DESIGN.md section 8)"
